@@ -3015,6 +3015,13 @@ evbuffer_file_segment_new(
 		length = evutil_fd_filesize(fd);
 		if (length == -1)
 			goto err;
+		/* "as much as possible" is what follows the offset, not the
+		 * size of the whole file */
+		if (offset > 0) {
+			if (offset > length)
+				goto err;
+			length -= offset;
+		}
 	}
 	seg->length = length;
 
